@@ -437,6 +437,13 @@ class Gen:
         self.counter += 1
         return f"{prefix}{self.counter}"
 
+    def sp(self, name):
+        """`$a-b` and `$a_b` are the same variable: spell it either way at each occurrence."""
+        if "-" in name or "_" in name:
+            n = name.replace("_", "-")
+            return n.replace("-", "_") if self.rng.random() < 0.5 else n
+        return name
+
     def var_name(self, sc):
         r = self.rng
         if r.random() < 0.55:
@@ -481,10 +488,10 @@ class Gen:
             vs = []      # keeps strings from doubling in loops (`$s: $s + $s`)
         if d <= 0 or r.random() < 0.25:
             if vs and r.random() < 0.6:
-                return ("var", r.choice(vs)[0])
+                return ("var", self.sp(r.choice(vs)[0]))
             return self.lit(ty)
         if vs and r.random() < 0.3:
-            return ("var", r.choice(vs)[0])
+            return ("var", self.sp(r.choice(vs)[0]))
         fns = [] if (pure or (ty == "str" and self.no_str_vars)) else sc.lookup("fns", lambda n, f: f[1] == ty)
         if fns and r.random() < 0.3:
             return self.call(sc, r.choice(fns), d, pure)
@@ -729,7 +736,7 @@ class Gen:
                     sc.vars[name] = ty
             if dflt:
                 self.features.add("!default")
-            return [("var", name, e, glob, dflt)]
+            return [("var", self.sp(name), e, glob, dflt)]
         if k == "assign":
             vs = sc.lookup("vars", lambda n, t: t in TYPES)
             if not vs:
@@ -737,7 +744,7 @@ class Gen:
             name, ty = r.choice(vs)
             if sc.vars.get(name) is None:
                 self.features.add("nested-assign")
-            return [("var", name, self.expr(sc, ty, d), False, False)]
+            return [("var", self.sp(name), self.expr(sc, ty, d), False, False)]
         if k == "debug":
             return [("debug", self.expr(sc, "any", d))]
         if k == "warn":
@@ -979,7 +986,7 @@ def gen_program(rng, cfg):
     # make the final state observable
     for name, ty in list(root.vars.items())[:4]:
         body.append(("debug", ("var", name)))
-    return respell(tuple(body), rng), sorted(g.features)
+    return tuple(body), sorted(g.features)
 
 
 # ---------------------------------------------------------------------------------------------
